@@ -196,6 +196,31 @@ def fwdActs : Fwd → List Action
   | .nonAreaForwarding => [Action.forwardNonArea]
   | .discard => []
 
+/-- `gn_data_indicate_gbc` + `gn_data_forward_gbc` in a given STATE of the forwarder: `bc` = no neighbour in the location
+    table and store-carry-forward set in the traffic class (step 10 of 10.3.11.3: the packet belongs into the BC
+    forwarding packet buffer; the code's stand-in passes the PDU to the link layer once, without Annex D).  The area-size
+    and packet-data-rate controls of `gn_data_indicate_gbc` come BEFORE the forwarder is entered, i.e. in both states. -/
+def recvGBCst (bc : Bool) (i : RxIn) : List Action :=
+  (if 0 ≤ i.fEgo then [Action.deliver] else []) ++
+  (if i.oversize || i.pdrExceeded || decide (i.rhl ≤ 1) then []
+   else if bc then [Action.forwardArea] else fwdActs (annexD i.fEgo i.se))
+
+/-- `gn_data_indicate_gac` in a given state of the forwarder (`bc` as above: step 10b keeps the packet back) -/
+def recvGACst (bc : Bool) (i : RxIn) : List Action :=
+  if 0 ≤ i.fEgo then [Action.deliver]
+  else if i.oversize || i.pdrExceeded then []
+  else match i.se with
+    | some (true, fSe) => if 0 ≤ fSe then [] else if i.rhl ≤ 1 then [] else if bc then [] else [Action.forwardNonArea]
+    | _ => if i.rhl ≤ 1 then [] else if bc then [] else [Action.forwardNonArea]
+
+/-- the variant with the size control INSIDE the forwarder's "a neighbour exists or SCF not set" branch (seeded change
+    C07-m10): `guardOutside = false` -/
+def recvGBCguardAt (guardOutside : Bool) (bc : Bool) (i : RxIn) : List Action :=
+  if guardOutside then recvGBCst bc i
+  else (if 0 ≤ i.fEgo then [Action.deliver] else []) ++
+    (if i.pdrExceeded || decide (i.rhl ≤ 1) then []
+     else if bc then [Action.forwardArea] else if i.oversize then [] else fwdActs (annexD i.fEgo i.se))
+
 /-- SE_POS_VALID / "sender inside or at border" of a sender PV given as (PAI, F(sender)) -/
 def sePai (se : Option (Bool × Rat)) : Bool := match se with | some (p, _) => p | none => false
 def seIn (se : Option (Bool × Rat)) : Bool := match se with | some (_, f) => decide (0 ≤ f) | none => false
@@ -295,5 +320,46 @@ def flatGlue : Glue :=
   { proj := fun c p => ((p.lat - c.lat : Int), (p.lon - c.lon : Int))
     cos := fun az => (quarterCS (az / 90)).1
     sin := fun az => (quarterCS (az / 90)).2 }
+
+/-! ## Sequences of evaluations on ONE instance (round 6)
+
+`gn_geometric_function_f` is a method of the router: what it returns for a query must not depend on what the instance
+was asked before. -/
+
+/-- one query: shape, semi-axes, unit vector `(c, s)` of the azimuth, offset of the point from the centre (north, east) -/
+structure FQuery where
+  sh : Shape
+  a : Rat
+  b : Rat
+  c : Rat
+  s : Rat
+  north : Rat
+  east : Rat
+  deriving DecidableEq
+
+/-- the rotated offset the code evaluates F at -/
+def FQuery.frame (q : FQuery) : Rat × Rat := codeFrame q.c q.s q.north q.east
+
+/-- the stateless evaluation (the source as it is): project, rotate, evaluate -/
+def FQuery.eval (q : FQuery) : Except Err Rat := F q.sh q.a q.b q.frame.1 q.frame.2
+
+/-- evaluation by an instance that keeps the LAST rotated offset under `key q` (a one-entry memo) -/
+def evalMemo {κ : Type} [DecidableEq κ] (key : FQuery → κ) (m : Option (κ × Rat × Rat)) (q : FQuery) :
+    Option (κ × Rat × Rat) × Except Err Rat :=
+  let p : Rat × Rat := match m with
+    | some (k, p) => if k = key q then p else q.frame
+    | none => q.frame
+  (some (key q, p), F q.sh q.a q.b p.1 p.2)
+
+/-- a sequence of queries answered by one such instance -/
+def runMemo {κ : Type} [DecidableEq κ] (key : FQuery → κ) : Option (κ × Rat × Rat) → List FQuery → List (Except Err Rat)
+  | _, [] => []
+  | m, q :: qs => (evalMemo key m q).2 :: runMemo key (evalMemo key m q).1 qs
+
+/-- the answers of ONE router instance to a sequence of queries: `stateless` = the function writes no state that outlives
+    the call (regenerated fact); otherwise the memo keyed by centre and point only (seeded change C07-m12; the offset
+    stands for the pair centre/point) -/
+def evalSeqAt (stateless : Bool) (qs : List FQuery) : List (Except Err Rat) :=
+  if stateless then qs.map FQuery.eval else runMemo (fun q => (q.north, q.east)) none qs
 
 end FlexModel.Geo.Area
